@@ -45,6 +45,11 @@ pub struct MergeSc {
     pub left_end_after: u64,
     pub right: Vec<(u64, u32)>,
     pub right_end_after: u64,
+    /// the left input reaches `merge` through a channel: a `forward_to` task feeds an `UnboundedTx`
+    /// and `merge` polls the `UnboundedRx` as a stream (how the execution manager's response channel
+    /// and the engine feed are consumed)
+    #[serde(default)]
+    pub via_channel: bool,
 }
 
 /// One scripted websocket of the builders sub-batch: its successive connections.
@@ -250,6 +255,7 @@ impl Sim for SimD1 {
                 left_end_after,
                 right,
                 right_end_after,
+                via_channel: rng.chance(1, 3),
             });
         } else {
             let n = 1 + rng.usize(7);
@@ -529,7 +535,14 @@ impl Sim for SimD1 {
                     conn_stream(items.into_iter().map(|(d, v)| (d, ItemD::Ok(v))).collect(), end_after)
                         .map(|r| r.unwrap_or(0))
                 };
-                let mut s = Box::pin(merge(mk(m.left.clone(), m.left_end_after), mk(m.right.clone(), m.right_end_after)));
+                let left: std::pin::Pin<Box<dyn futures::Stream<Item = u32> + Send>> = if m.via_channel {
+                    let (tx, rx) = mpsc_unbounded::<u32>();
+                    tokio::spawn(mk(m.left.clone(), m.left_end_after).forward_to(tx));
+                    Box::pin(rx)
+                } else {
+                    Box::pin(mk(m.left.clone(), m.left_end_after))
+                };
+                let mut s = Box::pin(merge(left, mk(m.right.clone(), m.right_end_after)));
                 let mut outs = Vec::new();
                 while let Some(v) = s.next().await {
                     outs.push((start.elapsed().as_millis() as u64, v));
@@ -572,9 +585,11 @@ impl Sim for SimD1 {
                 if !stays_ended {
                     fail!('m, "M3_merge_end", 0, "merged stream yielded again after it had ended");
                 }
-                for (name, exp) in [("left", &le), ("right", &re)] {
+                for (name, exp, own_end, other_end) in [("left", &le, tl, tr), ("right", &re, tr, tl)] {
                     let got: Vec<(u64, u32)> = outs.iter().filter(|(_, v)| exp.iter().any(|x| x.1 == *v)).cloned().collect();
-                    let must: Vec<(u64, u32)> = exp.iter().filter(|(t, _)| *t < t_end).cloned().collect();
+                    // everything emitted strictly before the merged stream ends - and, for the input
+                    // whose own end is what ends it, everything it emitted at all
+                    let must: Vec<(u64, u32)> = exp.iter().filter(|(t, _)| *t < t_end || own_end < other_end).cloned().collect();
                     let may: Vec<(u64, u32)> = exp.iter().filter(|(t, _)| *t <= t_end).cloned().collect();
                     // got must be a prefix of `may` that contains all of `must`
                     if got.len() < must.len() || got.len() > may.len() || got[..] != may[..got.len()] {
